@@ -224,6 +224,18 @@ def main():
     c18_parseto.parse_to(run)
 
     lap("parse_to")
+    # 3b5. _new_unsafe: unchecked constructor vs its compile-branch fallback to the checked one
+    import c18_newunsafe
+    c18_newunsafe.new_unsafe(run)
+
+    # 3b6. _from_tensordict key validation on both branches
+    import c18_fromtd
+    c18_fromtd.from_td(run)
+
+    # 3b7. memoised class predicates (memo off under compile)
+    import c18_memo
+    c18_memo.memo(run)
+
     # 3c. batch-size spellings and key-aligned value lists (both branches, direct oracle)
     import c18_programs
     c18_programs.helper_duals(run)
